@@ -75,14 +75,15 @@ Init == /\ A \in AChoices /\ B \in NFAsB
                st == AddAll([ac |-> {}, nxt |-> {}, m |-> [s |-> {}, n |-> {}]], {<<s, B.start>> : s \in A.start})
            IN /\ verdict = IF bad THEN "F" ELSE "run"
               /\ ac = st.ac /\ nxt = st.nxt /\ sub = st.m.s /\ nsub = st.m.n
-Pick == /\ verdict = "run" /\ nxt # {}
-        /\ \E p \in {x \in nxt : \A o \in nxt : Cardinality(x[2]) <= Cardinality(o[2])} :
-             LET succ == {<<e[3], FPost(B, p[2], e[2])>> : e \in {x \in A.delta : x[1] = p[1]}}
-                 bad == \E x \in succ : x[1] \in A.fin /\ x[2] \cap B.fin = {}
-                 st == AddAll([ac |-> ac, nxt |-> nxt \ {p}, m |-> [s |-> sub, n |-> nsub]], succ)
-             IN IF bad THEN verdict' = "F" /\ UNCHANGED <<ac, nxt, sub, nsub>>
-                ELSE /\ ac' = st.ac /\ nxt' = st.nxt /\ sub' = st.m.s /\ nsub' = st.m.n /\ UNCHANGED verdict
+PickOf(p) ==
+        /\ verdict = "run" /\ p \in nxt /\ \A o \in nxt : Cardinality(p[2]) <= Cardinality(o[2])
+        /\ LET succ == {<<e[3], FPost(B, p[2], e[2])>> : e \in {x \in A.delta : x[1] = p[1]}}
+               bad == \E x \in succ : x[1] \in A.fin /\ x[2] \cap B.fin = {}
+               st == AddAll([ac |-> ac, nxt |-> nxt \ {p}, m |-> [s |-> sub, n |-> nsub]], succ)
+           IN IF bad THEN verdict' = "F" /\ UNCHANGED <<ac, nxt, sub, nsub>>
+              ELSE /\ ac' = st.ac /\ nxt' = st.nxt /\ sub' = st.m.s /\ nsub' = st.m.n /\ UNCHANGED verdict
         /\ UNCHANGED <<A, B>>
+Pick == \E p \in nxt : PickOf(p)
 Finish == verdict = "run" /\ nxt = {} /\ verdict' = "T" /\ UNCHANGED <<A, B, ac, nxt, sub, nsub>>
 Next == Pick \/ Finish
 Spec == Init /\ [][Next]_vars /\ WF_vars(Next)
